@@ -23,6 +23,7 @@ import (
 func init() {
 	xstate.Setups["iolog"] = func(e *pagedrv.Env) { e.Disk.StartLog() }
 	xstate.Setups["eager"] = func(e *pagedrv.Env) { e.Eager = true }
+	xstate.Setups["diskfmt"] = func(e *pagedrv.Env) { e.DiskCheck = true }
 	TaskHandlers["crash"] = handleCrash
 	register(&Check{ID: "C01", Level: "fault_enumeration", Replay: replayCrash, Run: runC01})
 }
@@ -172,6 +173,13 @@ func checkRecovered(cfg pagedrv.Cfg, img []byte, allowed map[uint64]pagedrv.Stat
 		if !env.VerifyAgainst(st, "after crash recovery", "crash") {
 			return
 		}
+		// independent decoding of the recovered image: free lists, metadata pages and overwrite pages
+		// must be disjoint from the live pages and inside the end markers
+		env.CheckDisk(st, "recovered image")
+		if len(env.Viol) > 0 {
+			return
+		}
+		env.DiskCheck = true
 		if !probe {
 			return
 		}
